@@ -611,9 +611,20 @@ func (r *pqRun) round(rng *rand.Rand, writes int) {
 					if cl == nil {
 						continue
 					}
-					req := &pilosa.ImportValueRequest{Index: "i", Field: "v", Shard: c / pqSW, ColumnIDs: []uint64{c}, Values: []int64{v}}
-					if err := cl[0].API.ImportValue(context.Background(), req); err != nil {
-						r.fail([]string{"C14"}, "importvalue-error", fmt.Sprintf("ImportValue(col %d, v=%d): %v", c, v, err))
+					// like the real client: the request goes to every node that owns the shard
+					accepted := 0
+					var lastErr error
+					for _, node := range cl {
+						req := &pilosa.ImportValueRequest{Index: "i", Field: "v", Shard: c / pqSW, ColumnIDs: []uint64{c}, Values: []int64{v}}
+						err := node.API.ImportValue(context.Background(), req)
+						if err == nil {
+							accepted++
+						} else if !strings.Contains(err.Error(), "shard ownership") {
+							lastErr = err
+						}
+					}
+					if accepted == 0 || lastErr != nil {
+						r.fail([]string{"C14"}, "importvalue-error", fmt.Sprintf("ImportValue(col %d, v=%d): accepted by %d nodes, error %v", c, v, accepted, lastErr))
 					}
 				}
 			} else {
